@@ -1,5 +1,8 @@
 import Proofs.Lemmas.LexFuel
+import Proofs.Lemmas.Backtrack
+import Spec.Backtrack
 import Proofs.Properties.C18
+import Generated.C01Rewinds
 /-!
 # C01 — lexing is total: every byte string, in both modes, yields a token list;
 no index is ever out of range, every loop-body step consumes at least one byte,
@@ -10,6 +13,23 @@ terminates with a program or a positioned error; an accepted program runs
 without an internal crash) is not modelled in Lean: it is decided by the
 violation search of the harness only (crash / hang / time-bound observation in
 child processes) — see DESIGN.md §5 C01, "partial".
+
+Parse-WORK clause ("within a time bounded by a modest function of the input
+length"), second half of this file: the parser is a recursive descent over one
+cursor; `Model.Backtrack` is the cost model of such a parser (cursor advances
+over the bracket structure of the source, one reading policy per bracket kind).
+Proved for every source and every policy table: without a reading that rewinds
+over a nested parse the work is at most `2·size` (no look-ahead scans) resp.
+`2·size·(depth+1) ≤ 2·size²`; with one, the source that nests the construct `d`
+deep (`2d+1` tokens) costs at least `2^d`, so no bound `c·size²` holds. The
+tie to parser/*.go is the regenerated list of every write of a parser cursor
+(`Generated.C01.positionWrites`, extract/c01/rewinds.go) with the decidable
+obligation `gen_rewinds_bounded`: every write that moves a cursor backwards over
+a nested parse of the same tokens is one of the `guardedRewinds`, whose reading
+is decided by a token look-ahead before anything is parsed. The harness measures
+the same quantity on the real parser (allocation count always, cursor advances
+when the tree carries the verif hook) on every bracketed construct of the token
+table and of the corpus nested in itself.
 -/
 namespace C01
 open Model.Lex Proofs.Lex
@@ -69,5 +89,120 @@ theorem C01_lex_main_loop_linear {cfg : Cfg} (wf : WF cfg) (inp : Input) (f : Na
 a source ending in `E3 80`, and a source ending in `$` -/
 example : (tokenize genCfg #[97, 0xe3, 0x80] .script).1.toks.length = 3 := by decide +kernel
 example : (tokenize genCfg #[97, 59, 36] .script).1.toks.map (·.ty) = [274, 230, 228] := by decide +kernel
+
+/-! ## parse work -/
+section ParseWork
+open Model.Backtrack Proofs.Backtrack
+
+/-- **Linear work.** A parser whose readings only move forward or re-read a group's own tokens
+(no look-ahead scan, no retry over a nested parse) advances its cursor at most `2·size` times, for
+every source. -/
+theorem C01_parse_work_linear {pol : Nat → Policy} (h : ∀ k, pol k = .direct ∨ pol k = .retryFlat)
+    (t : Tree) : work pol t ≤ 2 * t.size :=
+  work_le_linear h t
+
+/-- **Polynomial work.** With token look-ahead scans to the matching closer allowed too — but no
+reading that rewinds over a nested parse — the work is at most `2·size·(depth+1)`, hence at most
+`2·size²`: a modest function of the input length, whatever the source. (The harness checks
+`advances ≤ 2·tokens·(depth+1) + 64` on the real parser when the tree carries the verif hook.) -/
+theorem C01_parse_work_polynomial {pol : Nat → Policy} (h : ∀ k, (pol k).nestedRetry = false)
+    (t : Tree) : work pol t ≤ 2 * t.size * (t.depth + 1) ∧ work pol t ≤ 2 * t.size * t.size :=
+  ⟨work_le_quadratic h t, work_le_size_sq h t⟩
+
+/-- **Negation witness: rewind after a nested parse doubles per level.** If the reading of one
+bracket kind parses an element, rewinds and parses it again, the source that nests that construct
+`d` deep — `2d+1` tokens — costs at least `2^d` advances. -/
+theorem C01_nested_retry_exponential {pol : Nat → Policy} {k : Nat} (hk : (pol k).nestedRetry = true)
+    (d : Nat) : (nest k d).size = 2 * d + 1 ∧ 2 ^ d ≤ work pol (nest k d) :=
+  ⟨size_nest k d, two_pow_le_work_nest hk d⟩
+
+/-- … so no bound of the form `c·size²` holds for such a parser (the full statement "bounded by a
+modest function of the input length" fails). -/
+theorem C01_nested_retry_no_square_bound {pol : Nat → Policy} {k : Nat} (hk : (pol k).nestedRetry = true) :
+    ¬ ∃ c, ∀ t : Tree, work pol t ≤ c * (t.size * t.size) :=
+  no_square_bound hk
+
+/-- **Characterisation (model = spec).** The work of a backtracking recursive-descent parser is a
+modest function of the input length for every source **iff** none of its readings rewinds over a
+nested parse. -/
+theorem C01_modest_work_iff (pol : Nat → Policy) :
+    Spec.Backtrack.ModestWork pol ↔ ∀ k, (pol k).nestedRetry = false := by
+  constructor
+  · intro hm k
+    cases h : (pol k).nestedRetry
+    · rfl
+    · exact absurd hm (no_square_bound h)
+  · intro h
+    exact ⟨2, fun t => by
+      have := work_le_size_sq h t
+      rwa [Nat.mul_assoc] at this⟩
+
+/-- The cursor writes that move backwards over a nested parse and are nevertheless bounded: the
+speculative multi-assignment reading `$a, $b = …` of `parseAssignment` is entered only when the
+token look-ahead `multiAssignAhead` has seen `(, $var)+ =` — every element is then a single
+variable token, the reading succeeds, and the restore is not reached with a nested parse behind
+it (before the fix of round 5 the look-ahead accepted any assignment operator at bracket depth 0
+and `[$a, [$a, 1] = $x] = $y` doubled per level: harness finding `work:nest:[] after start`). -/
+def guardedRewinds : List (String × String × String) :=
+  [("parser/expression_parser.go", "ExpressionParser.parseAssignment", "checkPositionIs,multiAssignAhead")]
+
+/-- obligation on the regenerated facts: the translator recognised every cursor write -/
+theorem gen_rewinds_shape : Generated.C01.rewindShapeChanged = [] := by decide
+
+/-- obligation on the regenerated facts: no cursor write of parser/*.go moves backwards over a nested
+parse of the same tokens, except the guarded ones. A change that saves the position, calls a
+recursive parse and restores the position (`try A, rewind, parse B`) breaks this `decide`. -/
+theorem gen_rewinds_bounded : sitesBounded guardedRewinds Generated.C01.positionWrites = true := by decide
+
+theorem tableOf_noNestedRetry {g : List (String × String × String)} {ws : List PosWrite}
+    (h : sitesBounded g ws = true) : ∀ k, (tableOf g ws k).nestedRetry = false := by
+  intro k
+  unfold tableOf
+  split
+  · rename_i w hw
+    have hmem : w ∈ ws := List.mem_of_getElem? hw
+    have hb := (List.all_eq_true.mp h) w hmem
+    unfold policyOf
+    split
+    · rfl
+    · split
+      · rfl
+      · split
+        · rfl
+        · rename_i h1 h2 h3
+          simp [PosWrite.reparsesNested] at hb h1 h2 h3
+          simp [h1, h2] at hb
+          exact absurd hb h3
+  · rfl
+
+/-- **The pinned parser's policy table is polynomial.** For the table read off the regenerated
+cursor writes (guarded writes cost a scan), every source is parsed with at most
+`2·size·(depth+1) ≤ 2·size²` cursor advances. -/
+theorem C01_parse_work_generated (t : Tree) :
+    work (tableOf guardedRewinds Generated.C01.positionWrites) t ≤ 2 * t.size * (t.depth + 1) ∧
+    work (tableOf guardedRewinds Generated.C01.positionWrites) t ≤ 2 * t.size * t.size :=
+  C01_parse_work_polynomial (tableOf_noNestedRetry gen_rewinds_bounded) t
+
+/-- the same as the spec predicate -/
+theorem C01_generated_modest_work :
+    Spec.Backtrack.ModestWork (tableOf guardedRewinds Generated.C01.positionWrites) :=
+  (C01_modest_work_iff _).mpr (tableOf_noNestedRetry gen_rewinds_bounded)
+
+/-! non-vacuity -/
+
+/-- a table with a scan and a flat retry meets the hypothesis of the polynomial theorem … -/
+example : ∀ k, ((fun k => if k = 0 then Policy.scan else if k = 1 then .retryFlat else .direct) k).nestedRetry = false := by
+  intro k; by_cases h0 : k = 0 <;> by_cases h1 : k = 1 <;> simp [h0, h1, Policy.nestedRetry]
+/-- … the regenerated list does contain a backwards write over a nested parse (the guarded one) … -/
+example : ∃ w ∈ Generated.C01.positionWrites, w.reparsesNested = true := by decide
+/-- … and the seeded shape — a restore after a nested parse in `LbraceParser.Parse` — fails the obligation -/
+example : sitesBounded guardedRewinds
+    [{ file := "parser/lbrace_parser.go", fn := "LbraceParser.Parse", kind := .restore, swap := false, nested := true, guard := "" }] = false := by decide
+/-- 24 bare blocks around one token: 49 tokens, at least 16 777 216 advances under a nested retry -/
+example : (nest 0 24).size = 49 ∧ 16777216 ≤ work (fun _ => .retryFirst) (nest 0 24) := by
+  have := C01_nested_retry_exponential (pol := fun _ => .retryFirst) (k := 0) rfl 24
+  simpa using this
+
+end ParseWork
 
 end C01
